@@ -81,3 +81,15 @@ impl TagSliceExt for [Tag] {
         unsafe { self.as_mut_ptr().write_bytes(tag.0, self.len()) }
     }
 }
+
+#[cfg(hashbrown_verif)]
+impl Tag {
+    #[inline]
+    pub(crate) const fn verif_from_u8(b: u8) -> Tag {
+        Tag(b)
+    }
+    #[inline]
+    pub(crate) const fn verif_to_u8(self) -> u8 {
+        self.0
+    }
+}
